@@ -468,4 +468,11 @@ pub fn discard_probes(layers: &[Layer], u: &UFeed, ex: &Expect, out: &mut Outcom
         out.probe("not:non-exhaustive-match-of-directory");
     }
     out.probe(format!("stack-depth:{}", layers.len()));
+    // a discard issued below ten open directory handles (walkdir switches representation there)
+    for (d, e) in u.entries.iter().enumerate() {
+        if depth_of(&e.wp) > 10 && ex.lv.iter().any(|col| col[d] != LV::Keep) {
+            out.probe("walkdir:discard-beyond-handle-limit");
+            break;
+        }
+    }
 }
